@@ -55,10 +55,10 @@ Proof. intros w Hw Hs. split; [apply cdf_length | split; [apply cdf_first | spli
 Print Assumptions C09_cdf.
 (* ... and approx_cdf_1d builds exactly that list and hands (edges, cdf) / (cdf, edges) to the two interpolants (three symbolic bins) *)
 Theorem C09_cdf_is_source : forall e0 e1 e2 e3 w0 w1 w2 rg cu, w0 + (w1 + (w2 + 0)) <> 0 ->
-  let edges := VList [num e0; num e1; num e2; num e3] in
+  let edges := VArr [num e0; num e1; num e2; num e3] in
   exists c',
-  yields Gc 80 (CFun src_fn_approx_cdf_1d) None [edges; VList [num w0; num w1; num w2]] [] rg cu
-    (VTuple [VList c'; VObj "interp1d" [("x", edges); ("y", VList c')]; VObj "interp1d" [("x", VList c'); ("y", edges)]]) cu []
+  yields Gc 80 (CFun src_fn_approx_cdf_1d) None [edges; VArr [num w0; num w1; num w2]] [] rg cu
+    (VTuple [VArr c'; VObj "interp1d" [("x", edges); ("y", VArr c')]; VObj "interp1d" [("x", VArr c'); ("y", edges)]]) cu []
   /\ Forall2 same_reals c' (map num (cdf [w0; w1; w2])).
 Proof. exact approx_cdf_three. Qed.
 Print Assumptions C09_cdf_is_source.
